@@ -24,10 +24,10 @@ pub fn defs() -> Vec<PropDef> {
         rule,
         bounds: |t| {
             json!({
-                "kinds": "all 39 non-hidden kinds (canonical value) + Host Name payloads of every length 0..=48 and 990..=1006",
-                "secrets_octets": [0, 1, 15, 16, 17, 38, 39, 40, 64, 200],
+                "kinds": "all 39 non-hidden kinds (canonical value) + Host Name payloads of every length 0..=48 (1-4 blocks, every residue), lengths giving 5..13, 16 and 32 blocks, and 990..=1006 (63 blocks)",
+                "secrets_octets": [0, 1, 6, 15, 16, 17, 38, 39, 40, 55, 64, 65, 100, 200],
                 "random_vectors": ["00000000", "deadbeef", "ffffffff"],
-                "length_padding_octets": "0..=33 and up to the 1008-octet limit",
+                "length_padding_octets": "0..=33, 64, 100, 255, 256, 500 and up to the 1008-octet limit",
                 "alignment_padding": ["ramp", "zero", "ff"],
                 "reveal_space": {"attribute_types": "0..=41,255,65535", "blocks": [1,2,3,63], "misaligned_lengths": [0,1,15,17,31,33,1017],
                                  "original_length_field": if t.thorough() { "all 65536 values for every attribute type and block count" } else { "all 65536 values x 45 attribute types x 1..3 blocks (valid content, right key); boundary values for the other dimensions" }},
@@ -86,7 +86,7 @@ pub fn defs() -> Vec<PropDef> {
 }
 
 const RVS: [[u8; 4]; 3] = [[0, 0, 0, 0], [0xde, 0xad, 0xbe, 0xef], [0xff, 0xff, 0xff, 0xff]];
-const SECRET_LENS: [usize; 10] = [6, 0, 1, 15, 16, 17, 38, 39, 40, 64];
+const SECRET_LENS: [usize; 14] = [6, 0, 1, 15, 16, 17, 38, 39, 40, 55, 64, 65, 100, 200];
 
 fn secret(n: usize) -> Vec<u8> {
     (0..n).map(|i| (0x41 + (i * 5) % 57) as u8).collect()
@@ -268,7 +268,7 @@ fn short(a: &SAvp) -> String {
 fn run_hide(ctx: &mut Ctx) {
     let tier = ctx.tier;
     let mut cases: Vec<SAvp> = spec::ALL_ATTRS.iter().map(|a| vgen::canonical(*a)).collect();
-    for n in (0..=48).chain(990..=1006) {
+    for n in (0..=48).chain([50usize, 62, 63, 66, 78, 79, 82, 98, 114, 130, 146, 162, 178, 194, 250, 506]).chain(990..=1006) {
         cases.push(SAvp::Plain { attr: 7, val: SVal::Bytes(ramp(n)) });
     }
     cases.push(SAvp::Plain { attr: 8, val: SVal::Str(vgen::utf8_of_len(30)) });
@@ -294,6 +294,11 @@ fn run_hide(ctx: &mut Ctx) {
             // time) for the others in quick; full product in thorough
             let full = si == 0 || tier.thorough();
             let mut lps: Vec<usize> = lp_all.iter().copied().filter(|l| *l <= room).collect();
+            for extra in [64usize, 100, 255, 256, 500] {
+                if extra <= room {
+                    lps.push(extra);
+                }
+            }
             if room > 33 {
                 lps.push(room);
                 lps.push(room - 1);
